@@ -181,7 +181,7 @@ Qed.
 (** * C09: sequences of strings / pairs / sorted-set items *)
 Definition strs_ok (l : list bytes) : Prop := Forall (fun s => len s < two32) l.
 Definition pairs_ok (l : list (bytes * bytes)) : Prop := Forall (fun p => len (fst p) < two32 /\ len (snd p) < two32) l.
-Definition zitems_ok (l : list (bytes * Z)) : Prop := Forall (fun p => len (fst p) < two32 /\ 0 <= snd p < two64) l.
+Definition zitems_ok (l : list (bytes * Z)) : Prop := Forall (fun p => len (fst p) < two32 /\ 0 <= snd p < two64 /\ f_nan (snd p) = false) l.
 
 Lemma read_strings_eq fuel n acc :
   read_strings fuel n acc = if n <=? 0 then ret (frev acc) else
@@ -198,19 +198,6 @@ Lemma read_strings_partial_eq fuel n acc s :
     | S f => match read_string s with
              | (None, s1) => (frev acc, false, s1)
              | (Some x, s1) => read_strings_partial f (n - 1) (x :: acc) s1
-             end
-    end.
-Proof. destruct fuel; reflexivity. Qed.
-Lemma read_zitems_partial_eq fuel n acc s :
-  read_zitems_partial fuel n acc s = if n <=? 0 then (frev acc, true, s) else
-    match fuel with
-    | O => (frev acc, false, s)
-    | S f => match read_string s with
-             | (None, s1) => (frev acc, false, s1)
-             | (Some m, s1) => match read_u64_le s1 with
-                               | (None, s2) => (frev acc, false, s2)
-                               | (Some sc, s2) => read_zitems_partial f (n - 1) ((m, sc) :: acc) s2
-                               end
              end
     end.
 Proof. destruct fuel; reflexivity. Qed.
@@ -266,21 +253,6 @@ Proof.
     exists v'. rewrite E. cbn [rev]. now rewrite <- app_assoc.
 Qed.
 
-Lemma read_zitems_partial_ok l : forall fuel acc r v, (length l <= fuel)%nat -> zitems_ok l ->
-  exists v', read_zitems_partial fuel (len l) acc (mkrd (flat_map write_zitem l ++ r) v) = (rev acc ++ l, true, mkrd r v').
-Proof.
-  induction l as [|[m sc] l IH]; intros fuel acc r v Hf Hok.
-  - exists v. rewrite read_zitems_partial_eq. rewrite len_nil. cbn [Z.leb Z.compare flat_map app].
-    now rewrite frev_rev, app_nil_r.
-  - rewrite read_zitems_partial_eq, len_pos_cons. destruct fuel as [|f]; [cbn [length] in Hf; lia|].
-    inversion Hok as [|? ? [Hm Hs] Hl]; subst. cbn [fst snd] in Hm, Hs.
-    cbn [flat_map]. unfold write_zitem at 1. cbn [fst snd]. rewrite <- !app_assoc.
-    rewrite (read_string_write m _ v Hm).
-    rewrite (read_u64_le_ok sc _ _ Hs).
-    rewrite len_cons_pred.
-    destruct (IH f ((m, sc) :: acc) r (Z.max v (len m))) as [v' E]; [cbn [length] in Hf; lia | exact Hl |].
-    exists v'. unfold mkrd in *. rewrite E. cbn [rev]. now rewrite <- app_assoc.
-Qed.
 
 (** ------------------------------------------------------------------ *)
 (** * C09: databases and the storage API on a fresh key *)
@@ -409,21 +381,54 @@ Lemma api_hset_fresh ds i d k fv :
 Proof. intros Hd Hk Hn. unfold api_hset. rewrite Hd, Hk. now rewrite (h_ins_all_fresh fv []). Qed.
 
 (** zadd item by item: the skip list built so far is [zs_rebuild] of the items seen *)
-Lemma api_zadd_all_more z : forall ds i d0 d k acc,
-  get_dbi ds i = Some d0 ->
-  api_zadd_all (set_dbi ds i (new_key d k (VZSet acc))) i k z
-  = Some (set_dbi ds i (new_key d k (VZSet (fold_left (fun a p => zs_insert (fst p) (snd p) a) z acc)))).
+Lemma api_zadd_more ds i d0 d k acc m sc :
+  get_dbi ds i = Some d0 -> f_nan sc = false ->
+  api_zadd (set_dbi ds i (new_key d k (VZSet acc))) i k m sc
+  = Some (set_dbi ds i (new_key d k (VZSet (zs_insert m sc acc)))).
 Proof.
-  induction z as [|[m sc] z IH]; intros ds i d0 d k acc Hd; cbn [api_zadd_all fold_left]; [reflexivity|].
-  unfold api_zadd. rewrite (get_set_dbi _ _ _ _ Hd). unfold new_key, keep_exp. rewrite get_put. cbn [e_val e_exp].
-  rewrite put_put, set_set_dbi. cbn [fst snd]. exact (IH ds i d0 d k _ Hd).
+  intros Hd Hn. unfold api_zadd. rewrite Hn. rewrite (get_set_dbi _ _ _ _ Hd). unfold new_key, keep_exp.
+  rewrite get_put. cbn [e_val e_exp]. now rewrite put_put, set_set_dbi.
 Qed.
-Lemma api_zadd_all_fresh ds i d k m sc z :
-  get_dbi ds i = Some d -> get_entry d k = None ->
-  api_zadd_all ds i k ((m, sc) :: z) = Some (set_dbi ds i (new_key d k (VZSet (zs_rebuild ((m, sc) :: z))))).
+Lemma api_zadd_fresh ds i d k m sc :
+  get_dbi ds i = Some d -> get_entry d k = None -> f_nan sc = false ->
+  api_zadd ds i k m sc = Some (set_dbi ds i (new_key d k (VZSet [(m, sc)]))).
+Proof. intros Hd Hk Hn. unfold api_zadd. now rewrite Hn, Hd, Hk. Qed.
+
+Lemma load_zitems_eq fuel n ds i k s :
+  load_zitems fuel n ds i k s =
+  if n <=? 0 then SOk tt s ds else
+  match fuel with
+  | O => SErr s ds
+  | S f =>
+    match read_string s with
+    | (None, s1) => SErr s1 ds
+    | (Some m, s1) =>
+      match read_u64_le s1 with
+      | (None, s2) => SErr s2 ds
+      | (Some sc, s2) =>
+        match api_zadd ds i k m sc with
+        | None => SErr s2 ds
+        | Some ds' => load_zitems f (n - 1) ds' i k s2
+        end
+      end
+    end
+  end.
+Proof. destruct fuel; reflexivity. Qed.
+
+Lemma load_zitems_more z : forall fuel ds i d0 d k acc r v,
+  get_dbi ds i = Some d0 -> zitems_ok z -> (length z <= fuel)%nat ->
+  exists v', load_zitems fuel (len z) (set_dbi ds i (new_key d k (VZSet acc))) i k (mkrd (flat_map write_zitem z ++ r) v)
+           = SOk tt (mkrd r v') (set_dbi ds i (new_key d k (VZSet (fold_left (fun a p => zs_insert (fst p) (snd p) a) z acc)))).
 Proof.
-  intros Hd Hk. cbn [api_zadd_all]. unfold api_zadd. rewrite Hd, Hk.
-  rewrite (api_zadd_all_more z ds i d d k [(m, sc)] Hd). reflexivity.
+  induction z as [|[m sc] z IH]; intros fuel ds i d0 d k acc r v Hd Hok Hf.
+  - exists v. rewrite load_zitems_eq, len_nil. reflexivity.
+  - rewrite load_zitems_eq, len_pos_cons. destruct fuel as [|f]; [cbn [length] in Hf; lia|].
+    apply Forall_cons_iff in Hok. destruct Hok as [(Hm & Hs & Hn) Hok]. cbn [fst snd] in Hm, Hs, Hn.
+    cbn [flat_map]. unfold write_zitem at 1. cbn [fst snd]. rewrite <- !app_assoc.
+    rewrite (read_string_write m _ v Hm). rewrite (read_u64_le_ok sc _ _ Hs).
+    rewrite (api_zadd_more ds i d0 d k acc m sc Hd Hn). rewrite len_cons_pred.
+    destruct (IH f ds i d0 d k (zs_insert m sc acc) r (Z.max v (len m)) Hd Hok) as [v' E]; [cbn [length] in Hf; lia|].
+    exists v'. unfold mkrd in *. rewrite E. reflexivity.
 Qed.
 Lemma zlist_eqb_eq a : forall b, zlist_eqb a b = true -> a = b.
 Proof.
@@ -655,10 +660,11 @@ Proof.
 Qed.
 Lemma u64b_range z : u64b z = true -> 0 <= z < two64.
 Proof. unfold u64b. intros H. apply andb_prop in H. destruct H as [H1 H2]. apply Z.leb_le in H1. apply Z.ltb_lt in H2. lia. Qed.
-Lemma forallb_zitems_ok l : forallb (fun p => str_ok (fst p) && u64b (snd p)) l = true -> zitems_ok l.
+Lemma forallb_zitems_ok l : forallb (fun p => str_ok (fst p) && u64b (snd p) && negb (f_nan (snd p))) l = true -> zitems_ok l.
 Proof.
   intros H. apply Forall_forall. intros x Hx. rewrite forallb_forall in H. specialize (H x Hx). cbn beta in H.
-  apply andb_prop in H. destruct H. split; [now apply str_ok_lt | now apply u64b_range].
+  apply andb_prop in H. destruct H as [H Hn]. apply andb_prop in H. destruct H.
+  split; [now apply str_ok_lt | split; [now apply u64b_range | now apply negb_true_iff]].
 Qed.
 Lemma sentry_ok_good last es : sids_ok last es = true -> forallb sentry_ok es = true -> Forall sentry_good es.
 Proof.
@@ -808,26 +814,9 @@ Lemma load_kv_zset chk now ds i ttl s :
       match read_length s1 with
       | (None, s2) => SErr s2 ds
       | (Some n, s2) =>
-        if n <=? 0 then lift_api tt s2 ds (api_expire_opt now ds i k ttl) else
-        match read_string s2 with
-        | (None, s3) => SErr s3 ds
-        | (Some m, s3) =>
-          match read_u64_le s3 with
-          | (None, s4) => SErr s4 ds
-          | (Some sc, s4) =>
-            match api_zadd ds i k m sc with
-            | None => SErr s4 ds
-            | Some ds0 =>
-              match read_zitems_partial (S (length (r_in s))) (n - 1) [] s4 with
-              | (items, ok, s5) =>
-                match api_zadd_all ds0 i k items with
-                | None => SErr s5 ds0
-                | Some ds1 =>
-                    if ok then lift_api tt s5 ds1 (api_expire_opt now ds1 i k ttl) else SErr s5 ds1
-                end
-              end
-            end
-          end
+        match load_zitems (S (length (r_in s))) n ds i k s2 with
+        | SOk _ s3 ds1 => lift_api tt s3 ds1 (api_expire_opt now ds1 i k ttl)
+        | r => r
         end
       end
     end.
@@ -843,18 +832,16 @@ Proof.
   rewrite (read_string_write k _ rv Hk).
   rewrite read_length_write by (pose proof (len_nonneg z); lia).
   destruct z as [|[m sc] z']; [contradiction|].
-  rewrite len_pos_cons, len_cons_pred.
-  apply Forall_cons_iff in Hs. destruct Hs as [[Hm Hsc] Hs]. cbn [fst snd] in Hm, Hsc.
+  rewrite load_zitems_eq, len_pos_cons, len_cons_pred.
+  apply Forall_cons_iff in Hs. destruct Hs as [(Hm & Hsc & Hnn) Hs]. cbn [fst snd] in Hm, Hsc, Hnn.
   cbn [flat_map]. unfold write_zitem at 1. cbn [fst snd]. rewrite <- !app_assoc.
   rewrite (read_string_write m _ _ Hm).
   rewrite (read_u64_le_ok sc _ _ Hsc).
-  unfold api_zadd. rewrite Hd, Hfr.
-  match goal with |- context [read_zitems_partial ?fu _ _ (mkrd _ ?vv)] =>
-    destruct (read_zitems_partial_ok z' fu [] r vv) as [v' E] end.
+  rewrite (api_zadd_fresh ds i d k m sc Hd Hfr Hnn).
+  match goal with |- context [load_zitems ?fu _ _ _ _ (mkrd _ ?vv)] =>
+    destruct (load_zitems_more z' fu ds i d d k [(m, sc)] r vv Hd Hs) as [v' E] end.
   { cbn [r_in mkrd]. rewrite !app_length. pose proof (flat_map_zitems_length z'). lia. }
-  { exact Hs. }
-  unfold mkrd in *. rewrite E. cbn [rev app].
-  rewrite (api_zadd_all_more z' ds i d d k [(m, sc)] Hd).
+  unfold mkrd in *. rewrite E.
   change (fold_left (fun a p => zs_insert (fst p) (snd p) a) z' [(m, sc)]) with (zs_rebuild ((m, sc) :: z')).
   rewrite Hcan.
   rewrite (api_expire_opt_new now ds i d d k _ ttl Hd). eexists. reflexivity.
@@ -1403,6 +1390,14 @@ Proof.
   apply IH.
 Qed.
 
+Lemma load_zitems_no_panic fuel : forall n ds i k s, is_panic (load_zitems fuel n ds i k s) = false.
+Proof.
+  induction fuel as [|f IH]; intros n ds i k s; rewrite load_zitems_eq; destruct (n <=? 0); try reflexivity.
+  destruct (read_string s) as [[m|] s1]; [|reflexivity].
+  destruct (read_u64_le s1) as [[sc|] s2]; [|reflexivity].
+  destruct (api_zadd ds i k m sc); [apply IH | reflexivity].
+Qed.
+
 Lemma lift_api_no_panic {A} (a : A) s ds r : is_panic (lift_api a s ds r) = false.
 Proof. destruct r; reflexivity. Qed.
 
@@ -1415,13 +1410,8 @@ Proof.
   destruct ((vt =? T_ZSET) || (vt =? T_ZSET2)).
   { destruct (read_string s) as [[k|] s1]; [|reflexivity].
     destruct (read_length s1) as [[n|] s2]; [|reflexivity].
-    destruct (n <=? 0); [apply lift_api_no_panic|].
-    destruct (read_string s2) as [[m|] s3]; [|reflexivity].
-    destruct (read_u64_le s3) as [[sc|] s4]; [|reflexivity].
-    destruct (api_zadd ds i k m sc) as [ds0|]; [|reflexivity].
-    destruct (read_zitems_partial (S (length (r_in s))) (n - 1) [] s4) as [[items ok] s5].
-    destruct (api_zadd_all ds0 i k items); [|reflexivity].
-    destruct ok; [apply lift_api_no_panic | reflexivity]. }
+    pose proof (load_zitems_no_panic (S (length (r_in s))) n ds i k s2) as H.
+    destruct (load_zitems (S (length (r_in s))) n ds i k s2); [apply lift_api_no_panic | reflexivity | discriminate]. }
   destruct (vt =? T_LIST).
   { destruct (read_string s) as [[k|] s1]; [|reflexivity].
     destruct (read_length s1) as [[n|] s2]; [|reflexivity].
@@ -1596,18 +1586,20 @@ Proof.
   induction fuel as [|f IH]; intros n acc s Hs; rewrite read_strings_partial_eq; destruct (n <=? 0); try exact Hs.
   step_rs s Hs; [apply IH; exact G | exact G].
 Qed.
-Lemma read_zitems_partial_ok' fuel : forall n acc s, rd_ok s -> rd_ok (snd (read_zitems_partial fuel n acc s)).
-Proof.
-  induction fuel as [|f IH]; intros n acc s Hs; rewrite read_zitems_partial_eq; destruct (n <=? 0); try exact Hs.
-  step_rs s Hs; [|exact G].
-  pose proof (read_u64_le_ok' s0 G) as G2. unfold res_ok in G2.
-  destruct (read_u64_le s0) as [[sc|] s2]; cbn [snd] in G2; [apply IH; exact G2 | exact G2].
-Qed.
 
 Definition step_ok {A} (r : step A) : Prop :=
   match r with SOk _ s _ => rd_ok s | SErr s _ => rd_ok s | SPanic s _ => rd_ok s end.
 Lemma lift_api_ok {A} (a : A) s ds r : rd_ok s -> step_ok (lift_api a s ds r).
 Proof. intros H. destruct r; exact H. Qed.
+
+Lemma load_zitems_ok fuel : forall n ds i k s, rd_ok s -> step_ok (load_zitems fuel n ds i k s).
+Proof.
+  induction fuel as [|f IH]; intros n ds i k s Hs; rewrite load_zitems_eq; destruct (n <=? 0); try exact Hs.
+  step_rs s Hs; [|exact G].
+  pose proof (read_u64_le_ok' s0 G) as G2. unfold res_ok in G2.
+  destruct (read_u64_le s0) as [[sc|] s2]; cbn [snd] in G2; [|exact G2].
+  destruct (api_zadd ds i k x sc); [apply IH; exact G2 | exact G2].
+Qed.
 
 Lemma load_stream_ok chk fuel : forall ds i k idx remaining s, rd_ok s ->
   step_ok (load_stream chk fuel ds i k idx remaining s).
@@ -1632,15 +1624,9 @@ Proof.
   { step_rs s Hs; [|exact G].
     pose proof (read_length_ok s0 G) as [G1 _]. unfold res_ok in G1.
     destruct (read_length s0) as [[n|] s2]; cbn [snd] in G1; [|exact G1].
-    destruct (n <=? 0); [apply lift_api_ok; exact G1|].
-    step_rs s2 G1; [|exact G0].
-    pose proof (read_u64_le_ok' s1 G0) as G3. unfold res_ok in G3.
-    destruct (read_u64_le s1) as [[sc|] s4]; cbn [snd] in G3; [|exact G3].
-    destruct (api_zadd ds i x x0 sc) as [ds0|]; [|exact G3].
-    pose proof (read_zitems_partial_ok' (S (length (r_in s))) (n - 1) [] s4 G3) as G2.
-    destruct (read_zitems_partial (S (length (r_in s))) (n - 1) [] s4) as [[items ok] s5]. cbn [snd] in G2.
-    destruct (api_zadd_all ds0 i x items); [|exact G2].
-    destruct ok; [apply lift_api_ok; exact G2 | exact G2]. }
+    pose proof (load_zitems_ok (S (length (r_in s))) n ds i x s2 G1) as G2.
+    destruct (load_zitems (S (length (r_in s))) n ds i x s2); cbn [step_ok] in G2;
+      [apply lift_api_ok; exact G2 | exact G2 | exact G2]. }
   destruct (vt =? T_LIST).
   { step_rs s Hs; [|exact G].
     pose proof (read_length_ok s0 G) as [G1 _]. unfold res_ok in G1.
